@@ -131,7 +131,7 @@ class Driver:
             n = len(rel)
             return [{"r": list(p[n:]), "k": kk} for p, kk in sorted(tree.items()) if p[:n] == rel and len(p) > n]
 
-        d = {"k": k, "p": [], "q": [], "kind": "none", "sub": [], "made": [], "victim": "none", "alias": []}
+        d = {"k": k, "p": [], "q": [], "kind": "none", "sub": [], "made": [], "victim": "none", "alias": [], "back": []}
         if k in ("owrite", "ocreat", "omkdir", "ounlink", "ormdir"):
             rel = tuple(seq(op[1]))
             d["kind"] = "dir" if k in ("omkdir", "ormdir") else "file"
@@ -177,6 +177,10 @@ class Driver:
             for pre, old in self.moved_out.items():   # moved in FROM a directory that left the tree earlier (D7)
                 if a[: len(pre)] == pre and len(a) > len(pre):
                     d["alias"] = list(old + a[len(pre):])
+                if a[: len(pre)] == pre and d["kind"] == "dir":
+                    # a directory that had left the tree (or one below it) comes back: `back` = its old in-tree path; once
+                    # the library has seen it arrive, its watch is re-keyed and the old path is excused no longer
+                    d["back"] = list(old + a[len(pre):])
         elif k == "rmroot":
             d["kind"] = "dir"
             d["sub"] = subs(T, ())
